@@ -32,6 +32,9 @@ CHECKS = {
  "C12": ("exploration", "recorded-history checker over snapshots taken inside the underlying writer (prefix / whole-block / durability invariants); race detector",
          "The underlying writer records the delivered length after every Write returns together with the bytes offered so far; an independent parser verifies each snapshot is a block boundary decoding to a prefix of the written data, Flush+Wait and Close durability, and bam.NewWriter header durability, with seeded write delays and hook-widened compressor schedules.",
          "No faults here (C09); schedules sampled.", "3 C12"),
+ "C14": ("exploration", "policy-level reference model over exhaustively enumerated short histories; porcupine linearizability check of recorded concurrent histories; runtime deadlock detector; race detector",
+         "All operation sequences up to length 4 (quick) / 5 (thorough) over a 24-operation alphabet on LRU/FIFO/Random x capacity 1..3 x StatsRecorder are executed with reader-style block recycling and compared with a policy-level model; concurrent histories of 2-4 goroutines are recorded at the client boundary and checked with porcupine against the same model (nondeterministic drop victims), and repeated under -race.",
+         "Blocks are immutable in concurrent histories; a porcupine timeout is reported as not judged; Resize(0) not exercised.", "3 C14"),
 }
 NOT_BUILT = "check not built yet in this session; see DESIGN.md section 3 for the planned monitor"
 
